@@ -35,7 +35,7 @@ PROPS = {
     'C08': dict(modules=['NutsProofs.Props.C08'], suites=[S('db-mixed', (60, 200), (1500, 250))]),
     'C09': dict(modules=['NutsProofs.Props.C09'], suites=[S('db-crash', (40, 120), (800, 200)), S('db-kv', (30, 150), (500, 200))]),
     'C10': dict(modules=['NutsProofs.Props.C10'], suites=[S('db-crash', (50, 120), (1200, 200))]),
-    'C11': dict(modules=['NutsProofs.Props.C11'], suites=[S('db-crash', (50, 120), (1200, 200))]),
+    'C11': dict(modules=['NutsProofs.Props.C11'], suites=[S('db-crash', (50, 120), (1200, 200)), S('db-mcrash', (40, 150), (800, 200))]),
     'C12': dict(modules=['NutsProofs.Props.C12'], suites=[S('db-mixed', (60, 150), (1500, 200))]),
     'C13': dict(modules=['NutsProofs.Props.C13'], suites=[S('db-structs', (40, 150), (1000, 200)), S('db-list', (40, 150), (1000, 200))]),
     'C14': dict(modules=['NutsProofs.Props.C14'], suites=[],
@@ -66,7 +66,7 @@ PROPS = {
                              'sparse index mode is not modelled: its agreement on key/value operations is not checked']),
     'C20': dict(modules=['NutsProofs.Props.C20'],
                 suites=[S('api-fuzz', (60, 200), (1500, 250)), S('db-mixed', (30, 150), (600, 200)), S('db-kv', (30, 150), (600, 200)),
-                        S('db-structs', (20, 150), (500, 200)), S('list-ds', (80, 40), (2000, 60))],
+                        S('db-structs', (20, 150), (500, 200)), S('db-set', (30, 150), (600, 200)), S('list-ds', (80, 40), (2000, 60))],
                 assumptions=['panic-freedom is proved for the regenerated integer kernels (all machine integers) and for finished transactions in the model; panics the Go runtime can raise in code the model abstracts (nil maps/files, NaN ordering in the skiplist, regexp) are searched by the api-fuzz suite (a search, labelled as such), not proved',
                              'lists shorter than 2^62 elements']),
     'C21': dict(modules=['NutsProofs.Props.C21'],
